@@ -71,6 +71,10 @@ pub struct Setup {
 
 /// place the instruction words at pc0 in the seam's initial memory and emulate `prefetched` fetches
 pub fn setup(cpu: &mut Cpu, pc0: u32, hn: u8, b0: u8, b1: u8, w: [u16; 4], prefetched: u32) -> Setup {
+    setup_x(cpu, pc0, hn, b0, b1, w, prefetched, false)
+}
+
+pub fn setup_x(cpu: &mut Cpu, pc0: u32, hn: u8, b0: u8, b1: u8, w: [u16; 4], prefetched: u32, relax_div: bool) -> Setup {
     let s = seam();
     s.set_code(
         pc0,
@@ -79,7 +83,7 @@ pub fn setup(cpu: &mut Cpu, pc0: u32, hn: u8, b0: u8, b1: u8, w: [u16; 4], prefe
     let st0 = isa::St { er: cpu.er, ccr: cpu.ccr, pc: pc0 };
     cpu.pc = pc0 + 2 * prefetched;
     cpu.operating_pc = pc0;
-    Setup { pc0, wd: isa::Words { hn, b0, b1, w }, st0 }
+    Setup { pc0, wd: isa::Words { relax_div, hn, b0, b1, w }, st0 }
 }
 
 pub fn in_exp_w(e: &isa::Exp, a: u32) -> bool {
@@ -220,30 +224,51 @@ pub fn cost_sum() -> u32 {
     t
 }
 
-/// The post-condition, clause by clause.  `$p` home property, `$f` form name (ident, also isa::F_<f>).
+pub fn regs_match(cpu_er: &[u32; 8], e: &isa::Exp) -> bool {
+    let mut ok = true;
+    let mut i = 0;
+    while i < 8 {
+        if (cpu_er[i] ^ e.st.er[i]) & !e.free_er[i] != 0 {
+            ok = false;
+        }
+        i += 1;
+    }
+    ok
+}
+
+/// The post-condition, clause by clause.  `$p` home property, `$f` oracle form (isa::f::<f>), `$l` label used
+/// in the obligation ids.  Kani's assert! also assumes its condition afterwards, so every clause is
+/// asserted on its own branch of a symbolic selector: a clause that fails (even for every input) can
+/// never make a later clause pass vacuously.
 macro_rules! post_step {
-    ($p:literal, $f:ident, $cpu:ident, $su:ident, $res:ident) => {{
+    ($p:literal, $f:ident, $l:ident, $cpu:ident, $su:ident, $res:ident) => {{
         let exp = isa::step(&$su.st0, &$su.wd, &mut seam::InitView);
         // harness self-check: the encoding class given to this harness is exactly this form
-        assert!(exp.kind == isa::Kind::Exec && exp.form == isa::f::$f, concat!("OBL:SELF/", stringify!($f), "/encoding_class"));
-        assert!(!seam().overflow, concat!("OBL:SELF/", stringify!($f), "/log_capacity"));
+        assert!(exp.kind == isa::Kind::Exec && exp.form == isa::f::$f, concat!("OBL:SELF/", stringify!($l), "/encoding_class"));
+        assert!(!seam().overflow, concat!("OBL:SELF/", stringify!($l), "/log_capacity"));
         kani::assume(exp.pre);
         kani::cover!(exp.all_mapped, "COVER:mapped");
+        let clause: u8 = kani::any();
         if exp.all_mapped {
-            assert!($res.is_ok(), concat!("OBL:", $p, "/", stringify!($f), "/ok"));
-            if let Ok(charged) = $res {
-                assert!($cpu.er == exp.st.er, concat!("OBL:", $p, "/", stringify!($f), "/regs"));
-                assert!(($cpu.ccr ^ exp.st.ccr) & !exp.free_ccr == 0, concat!("OBL:", $p, "/", stringify!($f), "/flags"));
-                assert!($cpu.pc == exp.st.pc, concat!("OBL:", $p, "/", stringify!($f), "/pc"));
-                assert!(writes_done(&exp), concat!("OBL:", $p, "/", stringify!($f), "/mem_value"));
-                assert!(writes_in_frame(&exp), concat!("OBL:", $p, "/", stringify!($f), "/mem_frame"));
-                assert!(writes_in_frame(&exp) && reads_in_frame(&exp, $su.pc0), concat!("OBL:C08/", stringify!($f), "/ea"));
-                assert!(cost_mix_ok(&exp, $su.pc0), concat!("OBL:C20/", stringify!($f), "/cycle_mix"));
-                assert!(charged as u32 == cost_sum(), concat!("OBL:C20/", stringify!($f), "/charge_is_sum"));
-                assert!(seam().msgs == 0, concat!("OBL:", $p, "/", stringify!($f), "/no_message"));
+            if clause == 0 {
+                assert!($res.is_ok(), concat!("OBL:", $p, "/", stringify!($l), "/ok"));
             }
-        } else {
-            assert!($res.is_err(), concat!("OBL:C15/", stringify!($f), "/err_on_unmapped"));
+            if let Ok(charged) = $res {
+                match clause {
+                    1 => assert!(regs_match(&$cpu.er, &exp), concat!("OBL:", $p, "/", stringify!($l), "/regs")),
+                    2 => assert!(($cpu.ccr ^ exp.st.ccr) & !exp.free_ccr == 0, concat!("OBL:", $p, "/", stringify!($l), "/flags")),
+                    3 => assert!($cpu.pc == exp.st.pc, concat!("OBL:", $p, "/", stringify!($l), "/pc")),
+                    4 => assert!(writes_done(&exp), concat!("OBL:", $p, "/", stringify!($l), "/mem_value")),
+                    5 => assert!(writes_in_frame(&exp), concat!("OBL:", $p, "/", stringify!($l), "/mem_frame")),
+                    6 => assert!(writes_in_frame(&exp) && reads_in_frame(&exp, $su.pc0), concat!("OBL:C08/", stringify!($l), "/ea")),
+                    7 => assert!(cost_mix_ok(&exp, $su.pc0), concat!("OBL:C20/", stringify!($l), "/cycle_mix")),
+                    8 => assert!(charged as u32 == cost_sum(), concat!("OBL:C20/", stringify!($l), "/charge_is_sum")),
+                    9 => assert!(seam().msgs == 0, concat!("OBL:", $p, "/", stringify!($l), "/no_message")),
+                    _ => {}
+                }
+            }
+        } else if clause == 10 {
+            assert!($res.is_err(), concat!("OBL:C15/", stringify!($l), "/err_on_unmapped"));
         }
     }};
 }
@@ -267,10 +292,18 @@ macro_rules! pc_mode {
 ///   b0=(value,mask) b1=(value,mask): first word = value | (symbolic & mask)
 ///   w=[..4 x (value,mask)]: following words;  pre = words already fetched by the dispatcher
 macro_rules! step_harness {
-    ($name:ident, $p:literal, $f:ident, pc=$pcm:ident, b0=($b0v:expr,$b0m:expr), b1=($b1v:expr,$b1m:expr),
+    ($name:ident, $p:literal, $f:ident, $l:ident, pc=$pcm:ident, regmask=$rm:expr, relax=$rx:expr, b0=($b0v:expr,$b0m:expr), b1=($b1v:expr,$b1m:expr),
      w=[$w0:expr,$w1:expr,$w2:expr,$w3:expr], pre=$pre:expr, assume=|$ab1:ident, $aw:ident| $asm:expr, |$cpu:ident, $op:ident, $op2:ident| $call:expr) => {
         fn $name() {
             let mut $cpu = new_cpu();
+            if $rm != 0xffff_ffffu32 {
+                // BOUNDED variant: every register restricted to the bits of the mask
+                let mut i = 0;
+                while i < 8 {
+                    $cpu.er[i] &= $rm;
+                    i += 1;
+                }
+            }
             let pc0 = pc_mode!($pcm);
             let b0: u8 = if $b0m == 0 { $b0v } else { $b0v | (kani::any::<u8>() & $b0m) };
             let b1: u8 = if $b1m == 0 { $b1v } else { $b1v | (kani::any::<u8>() & $b1m) };
@@ -281,13 +314,13 @@ macro_rules! step_harness {
                 kani::assume($asm);
             }
             let hn: u8 = if $b0m == 0x0f { $b0v >> 4 } else { 0xff };
-            let su = setup(&mut $cpu, pc0, hn, b0, b1, w, $pre);
+            let su = setup_x(&mut $cpu, pc0, hn, b0, b1, w, $pre, $rx);
             #[allow(unused_variables)]
             let $op: u16 = ((b0 as u16) << 8) | b1 as u16;
             #[allow(unused_variables)]
             let $op2: u16 = w[0];
             let res = $call;
-            post_step!($p, $f, $cpu, su, res);
+            post_step!($p, $f, $l, $cpu, su, res);
         }
     };
 }
